@@ -33,8 +33,8 @@ pieces that exist only here - the policy over a *tablet* replica set and the per
                                     model (`pickSteps` / `fallbackGroups` of the same request without token, first three
                                     entries dropped).
 * `PreparedM`, `ExecM`, `sessionRoutingInfo`, `sessionFirstAttempt`
-                                  ← `Session::execute` (`session.rs:1775-1816`) and, as `pagerRoutingInfo`, the second copy of the
-                                    literal in `execute_iter` (`pager.rs:949-966`): token (C03 model), table spec, LWT flag,
+                                  ← `Session::execute` (`session.rs:1775-1816`) and, as `pagerRoutingInfo`, the two further copies of
+                                    the literal in `execute_iter` (`pager.rs:949-966` first page, `1017-1049` pages 2+): token (C03 model), table spec, LWT flag,
                                     consistency, location preference → `RoutingInfo` → plan → first attempt.
 * `routePlan`                     ← `Plan::new(policy, routing_info, cluster)` (`session.rs:2165-2173`): tablets first
                                     (`tablets_for_table(table_spec)` is `Some` - also with an EMPTY tablet list: the table
@@ -140,9 +140,12 @@ The refresh itself (`ClusterState::{calculate_new_topology, perform_tablets_main
 /-- Rack name on the Rust side of the case syntax (`topology.rs::rack_name`). -/
 def rackName (r : Nat) : String := "r" ++ Nat.repr r
 
-/-- A peer of the routing model - node, address, verdict of the host filter - as a `system.peers` row. (The nodes of
-the correspondence run are pool-less hook nodes rejected by the host filter: `accepted = false`; the theorems are about
-any verdicts, i.e. also the `(true, Some(node))` arms of `calculate_new_topology` that ordinary nodes take.) -/
+/-- A peer of the routing model - node, address, verdict of the host filter - as a `system.peers` row. (In the
+correspondence run the nodes are pool-less hook nodes: rejected by the host filter in `R` histories, `accepted = false`,
+accepted in `G` / `H` histories, `accepted = true`; the theorems are about any verdicts, i.e. also the
+`(true, Some(node))` arms of `calculate_new_topology` that ordinary nodes take.)
+The keyspace metadata `keyspaces` handed to `RState.step` is ONE list for the whole history: keyspaces dropped, failing
+to parse (`resolve_metadata_keyspaces`) or changing between refreshes are not modelled here (C15 models them). -/
 def toPeer (p : (Node × Nat) × Bool) : TabletsRefresh.Peer :=
   ⟨p.1.1.id, p.1.1.dc.map dcName, p.1.1.rack.map rackName, p.1.2, p.2⟩
 
@@ -325,10 +328,14 @@ structure Attempt where
 def firstAttempt (rc : RCluster) (plan : List Target) (draw : Nat) : Option Attempt :=
   plan.head?.map (fun t => ⟨t.1, t.2.getD (draw % ((rc.sharder t.1.id).map (·.nr)).getD 1)⟩)
 
-/-- `Session::execute_iter` → `QueryPager::new_for_prepared_statement` (`pager.rs:949-966`) builds its OWN `RoutingInfo`
-for every page request: the same six fields from the same sources (`extract_partition_key_and_calculate_token`,
-`get_table_spec`, `is_confirmed_lwt`, the executor's consistencies, `session.get_node_location_preference()`); a token
-error makes the pager constructor fail (`NextPageError::PartitionKeyError`). Written out a second time, as the code is. -/
+/-- The prepared-statement `RoutingInfo` literal exists THREE times in the code: `Session::execute` (`session.rs:1809-1816`,
+`sessionRoutingInfo` above), `Session::execute_iter` → `QueryPager::new_for_prepared_statement` for the FIRST page
+(`pager.rs:949-966`) and the pager's worker for pages 2+ (`pager.rs:1017-1049`, which recomputes the token). All three
+take the same six fields from the same sources (`extract_partition_key_and_calculate_token`, `get_table_spec`,
+`is_confirmed_lwt`, the executor's consistencies, the session's `node_location_preference`); a token error makes the
+pager fail (`NextPageError::PartitionKeyError`). This definition is the pager's copy written out again; that it equals
+`sessionRoutingInfo` is definitional (an `example` in Props/C12.lean) and says nothing about `/repo` - the tie of the
+three literals to the code is the `e2e route` family (api=u, api=i, pages=2). -/
 def pagerRoutingInfo (p : PreparedM) (values : List PartitionKey.RawValue) (ex : ExecM) :
     Except PartitionKey.TokenErr RRequest :=
   match PartitionKey.boundCalculateToken p.cdc p.pk values with
@@ -343,6 +350,39 @@ def pagerRoutingInfo (p : PreparedM) (values : List PartitionKey.RawValue) (ex :
 def sessionFirstAttempt (rc : RCluster) (cfg : Config) (p : PreparedM) (values : List PartitionKey.RawValue) (ex : ExecM)
     (ρp : RhoPick) (ρf : RhoFb) (draw : Nat) : Option Attempt :=
   match sessionRoutingInfo p values ex with
+  | .error _ => none
+  | .ok r => firstAttempt rc (routePlan rc cfg r ρp ρf) draw
+
+/-- One statement of a `Batch` as `Session::batch` looks at it: only the FIRST statement matters for routing. -/
+inductive BatchStmtM where
+  | unprepared
+  | prepared (p : PreparedM)
+  deriving Repr
+
+/-- `Session::batch`, up to its `RoutingInfo` literal (a FOURTH token-carrying literal, `session.rs:1062-1080` with
+`batch_values::peek_first_token`, `batch.rs:308-342`): the token is that of the FIRST statement under the FIRST row of
+values - computed only when that statement is prepared and the values iterator yields a row (`firstValues = some _`,
+`did_write`); the table spec is the first statement's when it is prepared; `is_confirmed_lwt` is always `false`; the
+consistency and the location preference are the profile's / the session's as for `execute`. An extraction error makes
+`batch` return before anything is sent. -/
+def batchRoutingInfo (stmts : List BatchStmtM) (firstValues : Option (List PartitionKey.RawValue)) (ex : ExecM) :
+    Except PartitionKey.TokenErr RRequest :=
+  match stmts.head? with
+  | some (.prepared p) =>
+    match firstValues with
+    | some values =>
+      match PartitionKey.boundCalculateToken p.cdc p.pk values with
+      | .error e => .error e
+      | .ok tok =>
+        .ok ⟨⟨ex.consistency, tok.map Int64.toInt, p.table.map (·.1), false, ex.pref⟩, (p.table.map (·.2)).getD 0⟩
+    | none => .ok ⟨⟨ex.consistency, none, p.table.map (·.1), false, ex.pref⟩, (p.table.map (·.2)).getD 0⟩
+  | _ => .ok ⟨⟨ex.consistency, none, none, false, ex.pref⟩, 0⟩
+
+/-- The first attempt of `Session::batch`. -/
+def batchFirstAttempt (rc : RCluster) (cfg : Config) (stmts : List BatchStmtM)
+    (firstValues : Option (List PartitionKey.RawValue)) (ex : ExecM) (ρp : RhoPick) (ρf : RhoFb) (draw : Nat) :
+    Option Attempt :=
+  match batchRoutingInfo stmts firstValues ex with
   | .error _ => none
   | .ok r => firstAttempt rc (routePlan rc cfg r ρp ρf) draw
 
